@@ -141,10 +141,28 @@ func C19(c *core.Ctx) {
 		}
 		c.Hist("foreign binary time layouts rejected")
 	}
+	// decoding into an EventTime that already holds a value (a reused entry slot, a message decoded twice): the result
+	// is the payload's instant whatever the receiver held -- also when that value encodes to the same 8 bytes
+	// (seconds 2^32 apart) or is the same instant in another zone
+	for i := 0; i < c.N(300, 20000); i++ {
+		s0, n0 := int64(r.Uint32()), int64(r.Intn(1000000000))
+		payload, _ := etEncode(time.Unix(s0, n0))
+		for _, prev := range []time.Time{time.Unix(s0+(1<<32), n0), time.Unix(s0-(1<<32), n0), time.Unix(s0+3*(1<<32), n0), time.Unix(s0, n0).In(locs[1]), time.Unix(s0+1, n0), {}} {
+			et := protocol.EventTime{Time: prev}
+			err := et.UnmarshalBinary(payload)
+			c.Eval()
+			if err != nil || et.Unix() != s0 || int64(et.Nanosecond()) != n0 {
+				c.Violation("judge-go", "c19-dirty-receiver", fmt.Sprintf("decoding the payload of %d.%d into an EventTime that held %d.%d gives %d.%d (err %v)", s0, n0, prev.Unix(), prev.Nanosecond(), et.Unix(), et.Nanosecond(), err),
+					map[string]interface{}{"payload": hx(payload), "receiver_sec": prev.Unix(), "receiver_nsec": prev.Nanosecond()})
+				break
+			}
+		}
+	}
+	c.Hist("decode into receivers that already hold a value")
 	// the same rule through every decoder that meets a timestamp extension (entries, MessageExt, Forward entries;
 	// byte-slice and stream paths) and every framing msgpack has for an extension of that length
 	// (fixext, ext8, ext16, ext32): a type-0 extension whose payload is not 8 bytes long is not an EventTime
-	for _, ln := range []int{0, 1, 2, 4, 7, 8, 9, 12, 15, 16, 17, 255, 300} {
+	for _, ln := range []int{0, 1, 2, 4, 7, 8, 9, 12, 15, 16, 17, 255, 256, 264, 300, 520, 65536 + 8} {
 		payload := make([]byte, ln)
 		r.Read(payload)
 		var framings [][]byte
@@ -163,7 +181,10 @@ func C19(c *core.Ctx) {
 		if ln < 256 {
 			framings = append(framings, []byte{0xc7, byte(ln), 0})
 		}
-		framings = append(framings, []byte{0xc8, byte(ln >> 8), byte(ln), 0}, []byte{0xc9, 0, 0, byte(ln >> 8), byte(ln), 0})
+		if ln < 65536 {
+			framings = append(framings, []byte{0xc8, byte(ln >> 8), byte(ln), 0})
+		}
+		framings = append(framings, []byte{0xc9, byte(ln >> 24), byte(ln >> 16), byte(ln >> 8), byte(ln), 0})
 		for _, fr := range framings {
 			ts := append(append([]byte{}, fr...), payload...)
 			ent := append(append([]byte{0x92}, ts...), 0x80)
